@@ -39,12 +39,9 @@ def run(ctx):
              trivial=_trivial, tagger=_tag,
              theorem="C08.* (Props/C08.lean): the model is a finite set of naturals with the documented search results "
                      "and `set` = cardinality; the implementation differs from the model on this history")
-    # the hypothesis `BS.SwarPopcount` of the `_partial` theorems, tested directly: Go countSetBits (exported by an
-    # overlay file) = the transcribed SWAR routine = the specification popcount (the driver prints a different text
-    # when the last two differ)
+    # `C08.countSetBits_eq_popcount` (proved for every word, Lemmas/BitSetSwar.lean) is about the transcription; this
+    # stream ties the transcription to the source: Go countSetBits (exported by an overlay file) = the transcribed SWAR
+    # routine = the specification popcount (the driver prints a different text when the last two differ)
     ctx.diff(area="popcnt", driver="drv_c08", n={"quick": 120000, "thorough": 4000000}, stateful=False,
-             theorem="hypothesis BS.SwarPopcount of C08.range_count_partial / count_card_partial: countSetBits of the "
+             theorem="C08.countSetBits_eq_popcount (used by range_count / count_card / step_spec): countSetBits of the "
                      "source differs from the population count on this word")
-    ctx.extra["unproved_hypotheses"] = ["BS.SwarPopcount (countSetBits = popcount): named hypothesis of "
-                                        "range_count_partial, count_card_partial, step_partial; kernel-checked on 256 "
-                                        "byte patterns (swar_bytes_partial); differential area popcnt"]
